@@ -150,11 +150,21 @@ type gInfo struct {
 }
 
 var (
-	reCreatedReader = regexp.MustCompile(`created by Havoc/pkg/agent\.\(\*Agent\)\.TaskPrepare\.func\d+ in goroutine`)
-	dumpBuf         = make([]byte, 4<<20)
-	dumpMu          sync.Mutex
+	reCreator = regexp.MustCompile(`\ncreated by (\S+) in goroutine`)
+	dumpBuf   = make([]byte, 4<<20)
+	dumpMu    sync.Mutex
 )
 
+// census classifies the goroutines Havoc has started by where they come from, not by the
+// names of the functions they run (a repair may rename or split those):
+//
+//	handler   created by code of package socks (the accept loop starts one per connection)
+//	start     has a frame of package socks on its own stack (the accept loop / its launcher)
+//	pending   created by TaskPrepare itself and not yet inside package socks
+//	pfreader  created by TaskDispatch (the reader of a reverse port forward)
+//	reader    created by any other code of package agent (the relay of a socks client)
+//
+// censusSane() verifies once per process that this picture matches the code under test.
 func census() []gInfo {
 	dumpMu.Lock()
 	defer dumpMu.Unlock()
@@ -177,15 +187,21 @@ func census() []gInfo {
 			}
 		}
 		gi := gInfo{state: st, kind: "other", stack: g}
+		creator := ""
+		if m := reCreator.FindStringSubmatch(g); m != nil {
+			creator = m[1]
+		}
 		switch {
-		case strings.Contains(g, "created by Havoc/pkg/socks.(*Socks).Start in goroutine"):
+		case strings.HasPrefix(creator, "Havoc/pkg/socks."):
 			gi.kind = "handler"
-		case reCreatedReader.MatchString(g):
-			gi.kind = "reader"
-		case strings.Contains(g, "created by Havoc/pkg/agent.(*Agent).TaskDispatch in goroutine"):
-			gi.kind = "pfreader"
-		case strings.Contains(g, "Havoc/pkg/socks.(*Socks).Start("):
+		case strings.Contains(g, "\nHavoc/pkg/socks."):
 			gi.kind = "start"
+		case creator == "Havoc/pkg/agent.(*Agent).TaskPrepare":
+			gi.kind = "pending"
+		case strings.HasPrefix(creator, "Havoc/pkg/agent.") && strings.Contains(creator, "TaskDispatch"):
+			gi.kind = "pfreader"
+		case strings.HasPrefix(creator, "Havoc/pkg/agent."):
+			gi.kind = "reader"
 		}
 		out = append(out, gi)
 	}
@@ -219,18 +235,16 @@ func rawCount() counts {
 		switch g.kind {
 		case "start":
 			c.starts++
-			if g.state == "IO wait" {
+			if g.state == "IO wait" && strings.Contains(g.stack, ".Accept(") {
 				c.startsListening++
 			}
-		case "other":
-			if strings.Contains(g.stack, "created by Havoc/pkg/agent.(*Agent).TaskPrepare in goroutine") {
-				c.startPending++
-			}
+		case "pending":
+			c.startPending++
 		case "handler":
 			c.handlers++
 		case "reader":
 			c.readers++
-			if g.state == "IO wait" && strings.Contains(g.stack, "SocksClientRead") {
+			if g.state == "IO wait" && strings.Contains(g.stack, ".Read(") {
 				c.readersInRead++
 			}
 		case "pfreader":
@@ -261,6 +275,82 @@ func waitFor(bound time.Duration, cond func() bool) bool {
 		if i > 50 && step < 5*time.Millisecond {
 			step *= 2
 		}
+	}
+}
+
+// censusSane checks, once per process, that the goroutine picture above is the one the code
+// under test produces: one proxy => one accept loop parked in Accept; a client in the middle
+// of its greeting => one handler; a registered, unanswered client => one relay goroutine and
+// no handler; after the agent's answer the relay is parked in Read.  If it does not hold the sub-checks cannot establish quiescence and must not run.
+var (
+	saneOnce sync.Once
+	saneErr  string
+)
+
+func censusSane() string {
+	saneOnce.Do(func() {
+		f := newFixture()
+		var cl *cli
+		defer func() {
+			if cl != nil {
+				f.cleanup([]*cli{cl})
+			} else {
+				f.cleanup(nil)
+			}
+		}()
+		port, ok := f.startProxy()
+		if !ok {
+			saneErr = "no accept loop recognised after `socks add` (or no port could be bound)"
+			return
+		}
+		if n := count(); n.starts != 1 || n.startsListening != 1 || n.handlers != 0 || n.readers != 0 {
+			saneErr = fmt.Sprintf("after socks add: %+v", n)
+			return
+		}
+		var err error
+		if cl, err = dialProxy(port); err != nil {
+			saneErr = "cannot connect to the proxy: " + err.Error()
+			return
+		}
+		cl.send([]byte{5}, nil)
+		if !waitFor(waitBound, func() bool { return count().handlers == 1 }) {
+			saneErr = fmt.Sprintf("client in the middle of its greeting: %+v", count())
+			return
+		}
+		cl.send([]byte{1, 0}, nil)
+		if rep, err := cl.recv(2, true); err != nil || rep[1] != 0 {
+			saneErr = fmt.Sprintf("greeting not answered: % x %v", rep, err)
+			return
+		}
+		cl.send(request(5, 1, 0, 1, []byte{10, 0, 0, 1}, 80), nil)
+		if !waitFor(waitBound, func() bool { n := count(); return n.handlers == 0 && n.readers == 1 && n.readersInRead == 0 }) {
+			saneErr = fmt.Sprintf("registered, unanswered client: %+v", count())
+			return
+		}
+		ids := f.socketIDs()
+		if len(ids) != 1 {
+			saneErr = fmt.Sprintf("socket table after one CONNECT: %x", ids)
+			return
+		}
+		f.dispatch(cbConnect(ids[0], true, 0))
+		if !waitFor(waitBound, func() bool { n := count(); return n.readers == 1 && n.readersInRead == 1 }) {
+			saneErr = fmt.Sprintf("connected client: %+v", count())
+			return
+		}
+		// what kill / close do to these goroutines is the property's business, not this check's:
+		// the deferred cleanup ends the scenario
+	})
+	return saneErr
+}
+
+// censusVerdict ends the test process with an infrastructure status (the driver reports
+// "inconclusive") when the goroutine picture did not match: every case was skipped.
+// The check runs inside the first case, not before rapid.Check, because in the -race build
+// the scenario itself provokes race reports and rapid refuses a *testing.T that has failed.
+func censusVerdict() {
+	if saneErr != "" {
+		fmt.Printf("INFRASTRUCTURE: the harness cannot recognise Havoc's relay goroutines (%s); every case was skipped\n", saneErr)
+		os.Exit(3)
 	}
 }
 
@@ -702,8 +792,8 @@ type cli struct {
 	written   uint64 // bytes written on this connection so far
 	id        uint32 // socket id learnt from the connect task
 	hasID     bool
-	connected bool // success reply received
-	closed    bool // closed by the client
+	connected bool   // success reply received
+	closed    bool   // closed by the client
 	reader    string // "", spin, read, gone : what the history says about this connection's relay goroutine
 }
 
